@@ -104,7 +104,15 @@ def case(cid, rng, sc):
             Alin = rng.integers(-3, 4, size=(dx, dy)).astype(float)
             if not np.any(Alin):
                 Alin[0, 0] = 1.0
-            c["gre_lin"] = q1(global_reconstruction_error(X, X @ Alin, train_idx=tr, test_idx=te))
+            # also with strongly anisotropic columns (scales down to 1e-6): the information is still contained linearly
+            if rng.random() < 0.5:
+                sc = 10.0 ** -rng.integers(0, 7, size=dx)
+                Xs = X * sc
+                if rng.random() < 0.6:            # a map that reads only the weakest column
+                    Alin = np.zeros((dx, dy)); Alin[int(np.argmin(sc)), :] = rng.integers(1, 4, size=dy)
+            else:
+                Xs = X
+            c["gre_lin"] = q1(global_reconstruction_error(Xs, Xs @ Alin, train_idx=tr, test_idx=te))
             c["grd_orth"] = q1(global_reconstruction_distortion(X, X @ rat_rot(dx, ang, reflect=bool(rng.integers(2)), rng=rng), train_idx=tr, test_idx=te))
             idx = perm[:14]
             c["gre_train"] = q1(global_reconstruction_error(X, Y, train_idx=idx, test_idx=idx))
